@@ -48,6 +48,9 @@ struct Broadcast {
     /// The panic of index 0 carries a payload whose destructor panics itself.
     #[serde(default)]
     bomb: bool,
+    /// 0: issued by the main thread; 1: issued by a helper thread spawned for it.
+    #[serde(default)]
+    caller: usize,
 }
 
 /// Panic payload whose destructor panics (unless the thread is already unwinding).
@@ -101,6 +104,106 @@ macro_rules! oracle {
     };
 }
 
+/// One broadcast on `pool`, issued by the current thread, with all per-broadcast
+/// oracles. Returns a shape string (which thread ran which index).
+fn one_broadcast(pool: &Pool, bi: usize, b: &Broadcast, max_n_before: usize) -> String {
+    let n = b.n;
+    let me = log::thread_index() as usize;
+    let cells: Vec<SyncCell<usize>> = (0..=n).map(|_| SyncCell(loom::cell::UnsafeCell::new(0))).collect();
+    let calls: Vec<AtomicUsize> = (0..=n).map(|_| AtomicUsize::new(0)).collect();
+    let threads: Vec<AtomicUsize> = (0..=n).map(|_| AtomicUsize::new(usize::MAX)).collect();
+    let done: Vec<AtomicBool> = (0..=n).map(|_| AtomicBool::new(false)).collect();
+    let alive = Arc::new(AtomicBool::new(true));
+    let guard = AliveGuard(alive.clone());
+    let out_of_range = AtomicUsize::new(usize::MAX);
+
+    let body = |index: usize| -> usize {
+        // Keeps the guard owned by the closure: it dies with the task block.
+        let _own = &guard;
+        if !alive.load(SeqCst) {
+            oracle!("C06", "call-after-return", "broadcast {bi} (n={n}): call for index {index} ran after the task was dropped");
+        }
+        if index > n {
+            out_of_range.store(index, SeqCst);
+            return 0;
+        }
+        let _done = DoneGuard(&done[index]);
+        calls[index].fetch_add(1, SeqCst);
+        threads[index].store(log::thread_index() as usize, SeqCst);
+        cells[index].0.with_mut(|p| unsafe { *p = 1000 * (bi + 1) + index });
+        if b.panics.contains(&index) {
+            if b.bomb && index == 0 {
+                std::panic::panic_any(Bomb);
+            }
+            panic!("{}", loopdrv::INJECTED_PANIC);
+        }
+        10 * index + bi
+    };
+
+    let mut results: Vec<Option<usize>> = Vec::new();
+    // A payload whose destructor panics makes `broadcast` itself unwind (after
+    // it has waited for the workers); the oracles below apply all the same.
+    let unwound = std::panic::catch_unwind(std::panic::AssertUnwindSafe(|| {
+        if b.extend {
+            results.push(Some(424242)); // pre-existing element must be preserved
+            pool.par_extend(&mut results, n, &body);
+        } else {
+            pool.broadcast(n, |i| {
+                body(i);
+            });
+        }
+    }))
+    .is_err();
+    if unwound != (b.bomb && b.panics.contains(&0)) {
+        oracle!("C06", "unexpected-unwind", "broadcast {bi} (n={n}): broadcast {} although panicking subset is {:?} (bomb payload: {})", if unwound { "unwound" } else { "returned normally" }, b.panics, b.bomb);
+    }
+    // ---- the caller has resumed
+    if out_of_range.load(SeqCst) != usize::MAX {
+        oracle!("C06", "index-range", "broadcast {bi} (n={n}): task called with index {}", out_of_range.load(SeqCst));
+    }
+    let mut seen_threads = HashSet::new();
+    for i in 0..=n {
+        let c = calls[i].load(SeqCst);
+        if c != 1 {
+            oracle!("C06", "call-count", "broadcast {bi} (n={n}): index {i} was called {c} times when broadcast returned");
+        }
+        if !done[i].load(SeqCst) {
+            oracle!("C06", "returned-early", "broadcast {bi} (n={n}): broadcast returned while the call for index {i} was still running");
+        }
+        let t = threads[i].load(SeqCst);
+        if (i == 0) != (t == me) {
+            oracle!("C06", "thread-placement", "broadcast {bi} (n={n}) issued by thread {me}: index {i} ran on thread {t} (index 0 must run on the caller, others on pool threads)");
+        }
+        if !seen_threads.insert(t) {
+            oracle!("C06", "thread-distinct", "broadcast {bi} (n={n}): two indices ran on thread {t}");
+        }
+        // Reading what the call wrote: loom reports a missing happens-before edge here.
+        let v = cells[i].0.with(|p| unsafe { *p });
+        if v != 1000 * (bi + 1) + i {
+            oracle!("C06", "visibility", "broadcast {bi} (n={n}): caller read {v} from the cell written by index {i}");
+        }
+    }
+    if b.extend {
+        if results.len() != n + 2 || results[0] != Some(424242) {
+            oracle!("C06", "extend-shape", "par_extend {bi} (n={n}): vector is {results:?}");
+        }
+        for i in 0..=n {
+            let want = if b.panics.contains(&i) { None } else { Some(10 * i + bi) };
+            if results[i + 1] != want {
+                oracle!("C06", "extend-result", "par_extend {bi} (n={n}): slot {i} holds {:?}, expected {want:?} (panicking subset {:?})", results[i + 1], b.panics);
+            }
+        }
+    }
+    let max_n = max_n_before.max(n);
+    let spawned = log::snapshot().iter().filter(|e| e.kind == log::Kind::Spawn).count();
+    if spawned != max_n || pool.aux_thread_count() != max_n {
+        oracle!("C06", "worker-count", "after broadcast {bi} (n={n}): {spawned} workers were spawned and the pool holds {} handles, expected max(n_1..n_j) = {max_n}", pool.aux_thread_count());
+    }
+    let shape = format!("{me}:{:?};", (0..=n).map(|i| threads[i].load(SeqCst)).collect::<Vec<_>>());
+    drop(guard);
+    shape
+}
+
 fn pool_scenario(history: &[Broadcast], prop: Option<&str>) {
     // With prop = C07 only the scheduler's terminal-state analysis (deadlock,
     // leaked worker) decides; the C06 oracles stay silent.
@@ -108,104 +211,24 @@ fn pool_scenario(history: &[Broadcast], prop: Option<&str>) {
     C06_ON.store(c06, SeqCst);
     log::reset();
     live::reset();
-    let pool = Pool::new();
+    let pool = Arc::new(Pool::new());
     let mut max_n = 0usize;
     let mut shape = String::new();
 
     for (bi, b) in history.iter().enumerate() {
-        let n = b.n;
-        let cells: Vec<SyncCell<usize>> = (0..=n).map(|_| SyncCell(loom::cell::UnsafeCell::new(0))).collect();
-        let calls: Vec<AtomicUsize> = (0..=n).map(|_| AtomicUsize::new(0)).collect();
-        let threads: Vec<AtomicUsize> = (0..=n).map(|_| AtomicUsize::new(usize::MAX)).collect();
-        let done: Vec<AtomicBool> = (0..=n).map(|_| AtomicBool::new(false)).collect();
-        let alive = Arc::new(AtomicBool::new(true));
-        let guard = AliveGuard(alive.clone());
-        let out_of_range = AtomicUsize::new(usize::MAX);
-
-        let body = |index: usize| -> usize {
-            // Keeps the guard owned by the closure: it dies with the task block.
-            let _own = &guard;
-            if !alive.load(SeqCst) {
-                oracle!("C06", "call-after-return", "broadcast {bi} (n={n}): call for index {index} ran after the task was dropped");
-            }
-            if index > n {
-                out_of_range.store(index, SeqCst);
-                return 0;
-            }
-            let _done = DoneGuard(&done[index]);
-            calls[index].fetch_add(1, SeqCst);
-            threads[index].store(log::thread_index() as usize, SeqCst);
-            cells[index].0.with_mut(|p| unsafe { *p = 1000 * (bi + 1) + index });
-            if b.panics.contains(&index) {
-                if b.bomb && index == 0 {
-                    std::panic::panic_any(Bomb);
-                }
-                panic!("{}", loopdrv::INJECTED_PANIC);
-            }
-            10 * index + bi
-        };
-
-        let mut results: Vec<Option<usize>> = Vec::new();
-        // A payload whose destructor panics makes `broadcast` itself unwind (after
-        // it has waited for the workers); the oracles below apply all the same.
-        let unwound = std::panic::catch_unwind(std::panic::AssertUnwindSafe(|| {
-            if b.extend {
-                results.push(Some(424242)); // pre-existing element must be preserved
-                pool.par_extend(&mut results, n, &body);
-            } else {
-                pool.broadcast(n, |i| {
-                    body(i);
-                });
-            }
-        }))
-        .is_err();
-        if unwound != (b.bomb && b.panics.contains(&0)) {
-            oracle!("C06", "unexpected-unwind", "broadcast {bi} (n={n}): broadcast {} although panicking subset is {:?} (bomb payload: {})", if unwound { "unwound" } else { "returned normally" }, b.panics, b.bomb);
-        }
-        // ---- the caller has resumed
-        if out_of_range.load(SeqCst) != usize::MAX {
-            oracle!("C06", "index-range", "broadcast {bi} (n={n}): task called with index {}", out_of_range.load(SeqCst));
-        }
-        let mut seen_threads = HashSet::new();
-        for i in 0..=n {
-            let c = calls[i].load(SeqCst);
-            if c != 1 {
-                oracle!("C06", "call-count", "broadcast {bi} (n={n}): index {i} was called {c} times when broadcast returned");
-            }
-            if !done[i].load(SeqCst) {
-                oracle!("C06", "returned-early", "broadcast {bi} (n={n}): broadcast returned while the call for index {i} was still running");
-            }
-            let t = threads[i].load(SeqCst);
-            if (i == 0) != (t == 0) {
-                oracle!("C06", "thread-placement", "broadcast {bi} (n={n}): index {i} ran on thread {t} (index 0 must run on the caller, others on pool threads)");
-            }
-            if !seen_threads.insert(t) {
-                oracle!("C06", "thread-distinct", "broadcast {bi} (n={n}): two indices ran on thread {t}");
-            }
-            // Reading what the call wrote: loom reports a missing happens-before edge here.
-            let v = cells[i].0.with(|p| unsafe { *p });
-            if v != 1000 * (bi + 1) + i {
-                oracle!("C06", "visibility", "broadcast {bi} (n={n}): caller read {v} from the cell written by index {i}");
+        if b.caller == 0 {
+            shape.push_str(&one_broadcast(&pool, bi, b, max_n));
+        } else {
+            // The broadcast is issued by another thread than the earlier ones
+            // (the pool is shared; calls are sequential).
+            let (pool2, b2) = (pool.clone(), b.clone());
+            let h = loom::thread::spawn(move || one_broadcast(&pool2, bi, &b2, max_n));
+            match h.join() {
+                Ok(s) => shape.push_str(&s),
+                Err(_) => panic!("machinery: the helper caller thread panicked"),
             }
         }
-        if b.extend {
-            if results.len() != n + 2 || results[0] != Some(424242) {
-                oracle!("C06", "extend-shape", "par_extend {bi} (n={n}): vector is {results:?}");
-            }
-            for i in 0..=n {
-                let want = if b.panics.contains(&i) { None } else { Some(10 * i + bi) };
-                if results[i + 1] != want {
-                    oracle!("C06", "extend-result", "par_extend {bi} (n={n}): slot {i} holds {:?}, expected {want:?} (panicking subset {:?})", results[i + 1], b.panics);
-                }
-            }
-        }
-        max_n = max_n.max(n);
-        let spawned = log::snapshot().iter().filter(|e| e.kind == log::Kind::Spawn).count();
-        if spawned != max_n || pool.aux_thread_count() != max_n {
-            oracle!("C06", "worker-count", "after broadcast {bi} (n={n}): {spawned} workers were spawned and the pool holds {} handles, expected max(n_1..n_j) = {max_n}", pool.aux_thread_count());
-        }
-        shape.push_str(&format!("{:?};", (0..=n).map(|i| threads[i].load(SeqCst)).collect::<Vec<_>>()));
-        drop(guard);
+        max_n = max_n.max(b.n);
     }
     // Dropping the pool must make every worker exit: loom requires all threads
     // to terminate and reports a deadlock otherwise.
